@@ -127,6 +127,9 @@ var mutatorTable = map[string]string{
 	"(hotline.ChatManager).New":              "chat.new",
 	"(hotline.BanMgr).Add":                   "ban.add",
 	"(*hotline.ClientConn).Disconnect":       "disconnect",
+	"(hotline.ClientManager).Add":            "registry.add",
+	"(hotline.ClientManager).Delete":         "registry.delete",
+	"(*hotline.Server).NewClientConn":        "registry.add",
 	"(*hotline.ClientConn).SendAll":          "send.others",
 	"(*hotline.ClientConn).NotifyOthers":     "send.others",
 	"(*hotline.Server).SendAll":              "send.others",
